@@ -21,7 +21,7 @@ var c06Terms = []string{
 	"[foo(a, b), bar(c)]", "[foo|bar]", "'{}'(foo(a, b))", "foo(f(a), [b])", "foo(X, Y)", "bar(X)", "foo('A', 'b c')",
 	"foo(1, 2)", "foo(-1, 2)", "foo(1, -2)", "bar(1)", "bar(-1)", "baz(-1)", "foo(- 1, a)", "-(1)", "-(-(1))", "-(-1)", "-(a)", "-(-(a))",
 	"1 - -1", "a - (-1)", "-(1) + 2", "- (1 + 2)", "-(foo(a, b))", "foo(-(a), b)", "1 + 2 * 3", "(1 + 2) * 3", "1 - (2 - 3)", "1 - 2 - 3",
-	"2 ** 3 ** 4", "(2 ** 3) ** 4", "2 ^ 3 ^ 4", "(2 ^ 3) ^ 4", "a :- b, c ; d -> e", "(a :- b) :- c", "f((a, b))", "f((a :- b))",
+	"2 ** (3 ** 4)", "(2 ** 3) ** 4", "2 ^ 3 ^ 4", "(2 ^ 3) ^ 4", "a :- b, c ; d -> e", "(a :- b) :- c", "f((a, b))", "f((a :- b))",
 	"f(:-)", "f(:-, -)", "[(a, b)]", "[a|(b, c)]", "\\+ a", "\\+ (a, b)", "\\+ \\+ a", "- - a", "\\ - a", "f(+)", "+(+(+))", "=(*, *)",
 	"[-]", "[-|-]", "'|'(a, b)", "f('|')", "(a | b)", "'[]'", "'{}'", "'{}'(a)", "{a, b}", "[]", "'[]'(a)", "'.'(a)", "f(',')", "','(a)",
 	"','(a, b, c)", "=(a, \\+)", "=(\\+, a)", "f(a, -)", "=(-, -)", "[a, b|c]", "\"abc\"", "f(\"\")", "'hello world'(a)", "f('\\n')", "f('')",
